@@ -27,7 +27,10 @@ import tempfile
 from fractions import Fraction
 from pathlib import Path
 
-import numpy as np
+# tiny arrays only: BLAS/OpenMP thread pools just oversubscribe the machine
+for _var in ("OMP_NUM_THREADS", "OPENBLAS_NUM_THREADS", "MKL_NUM_THREADS"):
+    os.environ.setdefault(_var, "1")
+import numpy as np  # noqa: E402
 
 import common
 import c17
@@ -184,6 +187,48 @@ def observe_topology(top, had_position=None):
     return out
 
 
+def consume2_case(ctx, case, tmpdir):
+    """`-c` then `-mc` on the same topology (both calls count from the first residue); correspondence only:
+    the resulting state is the excluded point of the theorems, see C04_combined_counterexample"""
+    top_path = Path(tmpdir) / "sys2.top"
+    write_top(top_path, case["types"], case["listing"])
+    rng = random.Random(case["seed"])
+    pts = layout_points(case["ncoords"] + case["ncoords_meta"], rng)
+    pts_c, pts_m = pts[:case["ncoords"]], pts[case["ncoords"]:]
+    for name, chunk in (("c.gro", pts_c), ("m.gro", pts_m)):
+        write_gro(Path(tmpdir) / name, [(i + 1, "X", "A", (fmt(p[0]), fmt(p[1]), fmt(p[2]))) for i, p in enumerate(chunk)],
+                  ("8.0", "8.0", "8.0"))
+    top = load_topology(top_path)
+    residues = real_residues(top)
+    try:
+        top.add_positions_from_file(Path(tmpdir) / "c.gro", skip_res=list(case["skip"]), resolution="mol")
+        top.add_positions_from_file(Path(tmpdir) / "m.gro", skip_res=list(case["skip"]), resolution="meta_mol")
+        impl = observe_topology(top)
+    except IOError:
+        impl = "reject"
+    except Exception as err:  # pylint: disable=broad-except
+        impl = "crash:%s" % type(err).__name__
+    conv = lambda chunk: [[common.rat_str(float(fmt(x))) for x in p] for p in chunk]
+    req = dict(op="consume2", skip=list(case["skip"]), ps=conv(pts_c), ps_meta=conv(pts_m), residues=residues)
+    return impl, req
+
+
+def judge_consume2(ctx, case, impl, ans):
+    replay = dict(stream="consume2", **case)
+    if not ans.get("ok"):
+        ctx.tie_broken("correspondence", "driver:C04", str(ans), replay)
+        return
+    model = ans["model"]
+    if isinstance(impl, str) or model == "reject":
+        ctx.correspond("add_positions_from_file-twice", impl if isinstance(impl, str) else "ok",
+                       "reject" if model == "reject" else "ok", replay)
+    else:
+        agree = len(impl) == len(model) and all(same_out(i, m) for i, m in zip(impl, model))
+        ctx.correspond("add_positions_from_file-twice", impl if not agree else "agree", model if not agree else "agree", replay)
+    excluded = (not isinstance(impl, str)) and any(o["build"] and o["pos"] is not None for o in impl)
+    ctx.case(json.dumps(case, sort_keys=True) if excluded else None, stream="consume2", reaches_build_and_supplied=excluded)
+
+
 def close(a, b, tol=1e-9):
     if a is None or b is None:
         return a is None and b is None
@@ -273,7 +318,7 @@ def judge_consume(ctx, case, impl, ans):
 def gen_consume_cases(ctx):
     rng = ctx.rng
     cases = []
-    for _ in range(ctx.budget(60, 1500)):
+    for _ in range(ctx.budget(60, 1000)):
         types = gen_types(rng)
         listing = gen_listing(rng, types)
         flat = flat_residues(types, listing)
@@ -363,17 +408,24 @@ def gen_machine_system(rng):
 
 # ------------------------------------------------------------------------------------------------ stream: e2e
 
-def gen_e2e_case(rng):
+def gen_e2e_case(rng, mode=None):
     # (two residues sharing a residue number crash Backmap.orient_template even without any input
     #  coordinates — outside C04, see notes/C04_findings.md — so the end-to-end stream numbers residues 1..n)
     types = gen_types(rng, max_types=3, max_res=5, repeat_resids=False)
     names = list(types)
     listing = gen_listing(rng, types, max_count=2)
-    mode = rng.choice(["c-prefix", "c-prefix", "mc-prefix", "res", "ign", "ign"])
+    mode = mode or rng.choice(["c-prefix", "c-prefix", "mc-prefix", "res", "ign", "ign"])
     ignore, build_res = [], []
     flat = flat_residues(types, listing)
     given = [False] * len(flat)          # residue is in the input file
-    if mode in ("c-prefix", "mc-prefix"):
+    centres_given = 0
+    if mode == "c+mc":
+        # atoms of a prefix with -c, centres of a strictly shorter prefix with -mc (KNOWN-FINDING shape
+        # combined-c-and-mc: the second call re-flags the residues in between)
+        cut = rng.randint(min(2, len(flat)), len(flat))
+        given = [i < cut for i in range(len(flat))]
+        centres_given = rng.randint(1, max(1, cut - 1))
+    elif mode in ("c-prefix", "mc-prefix"):
         cut = rng.randint(0, len(flat))
         given = [i < cut for i in range(len(flat))]
     elif mode == "res":
@@ -400,7 +452,8 @@ def gen_e2e_case(rng):
                     build_res += sorted({r for r, _ in types[name]["residues"]})
             cut = rng.randint(last_ign + 1, len(flat)) if rng.random() < 0.3 else len(flat)
             given = [(r[3] not in build_res) and i < cut for i, r in enumerate(flat)]
-    return dict(types=types, listing=listing, mode=mode, given=given, build_res=sorted(set(build_res)), ignore=ignore,
+    return dict(types=types, listing=listing, mode=mode, given=given, centres_given=centres_given,
+                build_res=sorted(set(build_res)), ignore=ignore,
                 fail_attempts=rng.choice([0, 0, 1, 2, 3]), fail_steps=rng.choice([0, 0, 0, 2, 5]),
                 nrewind=rng.choice([5, 5, 1, 2]), seed=rng.randint(0, 10 ** 6))
 
@@ -432,12 +485,23 @@ def run_e2e(case, tmpdir):
     # the residues as the real topology has them (for the specification)
     residues = real_residues(load_topology(top_path))
     req = dict(op="consume", skip=list(case["build_res"]), meta=meta, ps=ps, residues=residues)
+    meta_path = None
+    if case["mode"] == "c+mc":
+        meta_path = Path(tmpdir) / "centres.gro"
+        cents = [(r[2] + 1, r[3], "C", (fmt(c[0]), fmt(c[1]), fmt(c[2] + 0.06)))
+                 for r, c in list(zip(flat, centres))[:case["centres_given"]]]
+        write_gro(meta_path, cents, ("8.0", "8.0", "8.0"))
+        req = dict(op="consume2", skip=[], ps=ps, ps_meta=[[common.rat_str(float(x)) for x in c[3]] for c in cents],
+                   residues=residues)
 
     state = dict(attempts=0, steps=0)
     orig_run = random_walk.RandomWalk.run_molecule
     orig_update = random_walk.RandomWalk.update_positions
 
     def failing_run(self, meta_molecule):
+        state["runs"] = state.get("runs", 0) + 1
+        if state["runs"] > 60:
+            raise RuntimeError("verif watchdog: more than 60 molecule attempts, the build does not terminate")
         out = orig_run(self, meta_molecule)
         if self.success and state["attempts"] < case["fail_attempts"]:
             state["attempts"] += 1
@@ -458,11 +522,15 @@ def run_e2e(case, tmpdir):
     try:
         kwargs = dict(toppath=top_path, outpath=out_path, name="verif", build_res=list(case["build_res"]),
                       ignore=list(case["ignore"]), nrewind=case["nrewind"])
-        if atoms:
+        if meta_path is not None:
+            kwargs["coordpath"] = in_path
+            kwargs["coordpath_meta"] = meta_path
+        elif atoms:
             kwargs["coordpath_meta" if meta else "coordpath"] = in_path
         else:
             kwargs["box"] = np.array([8.0, 8.0, 8.0])
-        gen_coords(**kwargs)
+        with np.errstate(all="ignore"):
+            gen_coords(**kwargs)
         mol = read_gro(out_path, exclude=())
         result["out"] = [[float(x) for x in mol.nodes[n]["position"]] for n in sorted(mol.nodes)]
     except Exception as err:  # pylint: disable=broad-except
@@ -470,7 +538,7 @@ def run_e2e(case, tmpdir):
     finally:
         random_walk.RandomWalk.run_molecule = orig_run
         random_walk.RandomWalk.update_positions = orig_update
-    result["forced"] = dict(state)
+    result["forced"] = dict(attempts=state["attempts"], steps=state["steps"])
     return result, req, residues
 
 
@@ -485,13 +553,21 @@ def judge_e2e(ctx, case, result, ans, residues):
                 forced=result["forced"], given="".join("1" if g else "0" for g in case["given"]))
     n_given = sum(1 for s in spec if not s["build"])
     n_gen = len(spec) - n_given
+    combined = case["mode"] == "c+mc"
+    if combined:
+        what["centres_given"] = case["centres_given"]
+
+    def fail(shape, text):
+        # -c together with -mc: every deviation is the one known finding
+        ctx.oracle_fail("combined-c-and-mc" if combined else shape, text, replay)
+
     if result["error"]:
-        ctx.oracle_fail("gen-coords-crashed", "gen_coords raised %s on %s" % (result["error"], what), replay)
+        fail("gen-coords-crashed", "gen_coords raised %s on %s" % (result["error"], what))
     else:
         out = result["out"]
         natoms = sum(r[4] for r in flat)
         if len(out) != natoms:
-            ctx.oracle_fail("wrong-atom-count", "output has %d atoms, topology %d: %s" % (len(out), natoms, what), replay)
+            fail("wrong-atom-count", "output has %d atoms, topology %d: %s" % (len(out), natoms, what))
         else:
             # atoms appear in the output in topology order: molecule, residue, atom index
             k = 0
@@ -500,22 +576,22 @@ def judge_e2e(ctx, case, result, ans, residues):
                 coords = out[k:k + size]
                 k += size
                 if not all(math.isfinite(x) for c in coords for x in c):
-                    ctx.oracle_fail("non-finite-output", "residue %d has no finite coordinates: %s" % (ridx, what), replay)
+                    fail("non-finite-output", "residue %d has no finite coordinates: %s" % (ridx, what))
                     break
                 ignored = flat[ridx][1] in case["ignore"]
                 if want["atoms"]:
                     # supplied atom by atom: must be identical (in index order = output order)
                     exp = [[float(Fraction(x)) for x in v] for _, v in want["atoms"]]
                     if coords != exp:
-                        ctx.oracle_fail("ignored-molecule-moved" if ignored else "supplied-atom-moved",
-                                        "residue %d was given as %s, output has %s: %s" % (ridx, exp, coords, what), replay)
+                        fail("ignored-molecule-moved" if ignored else "supplied-atom-moved",
+                                        "residue %d was given as %s, output has %s: %s" % (ridx, exp, coords, what))
                         break
                 elif want["pos"] is not None:
                     centre = [float(Fraction(x)) for x in want["pos"]]
                     cog = [sum(c[d] for c in coords) / len(coords) for d in range(3)]
                     if max(abs(a - b) for a, b in zip(cog, centre)) > 1e-3:
-                        ctx.oracle_fail("centre-not-kept", "residue %d was given the centre %s, output atoms have "
-                                        "centre of geometry %s: %s" % (ridx, centre, cog, what), replay)
+                        fail("centre-not-kept", "residue %d was given the centre %s, output atoms have "
+                                        "centre of geometry %s: %s" % (ridx, centre, cog, what))
                         break
                 elif ignored:
                     ctx.tally(e2e_ignored_without_coordinates=True)
@@ -541,13 +617,17 @@ def corpus_cases():
     return out
 
 
-def run_inputs(ctx, consume_cases, gndx_systems, machine_cases, e2e_cases):
+def run_inputs(ctx, consume_cases, gndx_systems, machine_cases, e2e_cases, consume2_cases=()):
     reqs, todo = [], []
     with tempfile.TemporaryDirectory() as tmpdir:
         for case in consume_cases:
             impl, req, _ = consume_case(ctx, case, tmpdir)
             reqs.append(req)
             todo.append(("consume", case, impl, None))
+        for case in consume2_cases:
+            impl, req = consume2_case(ctx, case, tmpdir)
+            reqs.append(req)
+            todo.append(("consume2", case, impl, None))
         for system in gndx_systems:
             impl, req = gndx_case(ctx, system)
             reqs.append(req)
@@ -565,6 +645,8 @@ def run_inputs(ctx, consume_cases, gndx_systems, machine_cases, e2e_cases):
     for idx, (kind, case, impl, extra) in enumerate(todo):
         if kind == "consume":
             judge_consume(ctx, case, impl, answers[idx])
+        elif kind == "consume2":
+            judge_consume2(ctx, case, impl, answers[idx])
         elif kind == "gndx":
             judge_gndx(ctx, case, impl, answers[idx])
         else:
@@ -580,17 +662,24 @@ def run(ctx):
     ctx.assumptions.append("-res: residues skipped by name consume no coordinates, i.e. the input structure does not "
                            "contain them; ignored molecule types are given with all their coordinates")
     rng = ctx.rng
-    buckets = dict(consume=[], gndx=[], machine=[], e2e=[])
+    buckets = dict(consume=[], consume2=[], gndx=[], machine=[], e2e=[])
     for item in corpus_cases():
         buckets[item.get("stream", "e2e")].append({k: v for k, v in item.items() if k != "stream"} if item.get("stream") != "machine" else item)
     consume_cases = buckets["consume"] + gen_consume_cases(ctx)
     gndx_systems = buckets["gndx"] + [gen_machine_system(rng) for _ in range(ctx.budget(40, 800))]
     machine_cases = buckets["machine"]
-    for _ in range(ctx.budget(120, 4000)):
+    for _ in range(ctx.budget(120, 2500)):
         system = gen_machine_system(rng)
         machine_cases.append(dict(system, sched=c17.random_schedule(rng, rng.choice([6, 15, 40, 120])), stream="machine"))
-    e2e_cases = buckets["e2e"] + [gen_e2e_case(rng) for _ in range(ctx.budget(70, 2000))]
-    run_inputs(ctx, consume_cases, gndx_systems, machine_cases, e2e_cases)
+    e2e_cases = buckets["e2e"] + [gen_e2e_case(rng) for _ in range(ctx.budget(70, 1200))]
+    # -c together with -mc (known finding, shape combined-c-and-mc): a few cases in every run
+    e2e_cases += [gen_e2e_case(rng, mode="c+mc") for _ in range(ctx.budget(6, 40))]
+    consume2_cases = buckets["consume2"]
+    for case in gen_consume_cases(ctx)[:ctx.budget(25, 250)]:
+        flat = flat_residues(case["types"], case["listing"])
+        case = dict(case, meta=False, ncoords_meta=rng.randint(0, len(flat)))
+        consume2_cases.append(case)
+    run_inputs(ctx, consume_cases, gndx_systems, machine_cases, e2e_cases, consume2_cases)
 
 
 def replay(ctx, data):
@@ -603,12 +692,12 @@ def replay(ctx, data):
                 inputs.append(item["input"])
     else:
         inputs.append(data.get("input") or data)
-    buckets = dict(consume=[], gndx=[], machine=[], e2e=[])
+    buckets = dict(consume=[], consume2=[], gndx=[], machine=[], e2e=[])
     for item in inputs:
         stream = item.get("stream", "e2e")
         if stream not in buckets:
             stream = "machine"
         buckets[stream].append({k: v for k, v in item.items() if k != "stream"} if stream != "machine" else item)
-    run_inputs(ctx, buckets["consume"], buckets["gndx"], buckets["machine"], buckets["e2e"])
+    run_inputs(ctx, buckets["consume"], buckets["gndx"], buckets["machine"], buckets["e2e"], buckets["consume2"])
     for b in ctx.broken:
         print("REPLAY-DISAGREES", b["name"], b["detail"][:400])
